@@ -8,12 +8,12 @@ Definition wal_sites : list site :=
    Lit true [108; 111; 103; 95; 97; 112; 112; 101; 110; 100; 115] (* wal.go:549 log_appends *);
    Lit true [108; 111; 103; 95; 101; 110; 116; 114; 105; 101; 115; 95; 119; 114; 105; 116; 116; 101; 110] (* wal.go:550 log_entries_written *);
    Lit true [108; 111; 103; 95; 101; 110; 116; 114; 121; 95; 98; 121; 116; 101; 115; 95; 119; 114; 105; 116; 116; 101; 110] (* wal.go:551 log_entry_bytes_written *);
-   Lit true [115; 116; 97; 98; 108; 101; 95; 115; 101; 116; 115] (* wal.go:655 stable_sets *);
-   Lit true [115; 116; 97; 98; 108; 101; 95; 103; 101; 116; 115] (* wal.go:678 stable_gets *);
-   Lit false [108; 97; 115; 116; 95; 115; 101; 103; 109; 101; 110; 116; 95; 97; 103; 101; 95; 115; 101; 99; 111; 110; 100; 115] (* wal.go:772 last_segment_age_seconds *);
-   Lit true [115; 101; 103; 109; 101; 110; 116; 95; 114; 111; 116; 97; 116; 105; 111; 110; 115] (* wal.go:780 segment_rotations *);
-   Lit true [104; 101; 97; 100; 95; 116; 114; 117; 110; 99; 97; 116; 105; 111; 110; 115] (* wal.go:937 head_truncations *);
-   Lit true [116; 97; 105; 108; 95; 116; 114; 117; 110; 99; 97; 116; 105; 111; 110; 115] (* wal.go:1009 tail_truncations *)].
+   Lit true [115; 116; 97; 98; 108; 101; 95; 115; 101; 116; 115] (* wal.go:657 stable_sets *);
+   Lit true [115; 116; 97; 98; 108; 101; 95; 103; 101; 116; 115] (* wal.go:680 stable_gets *);
+   Lit false [108; 97; 115; 116; 95; 115; 101; 103; 109; 101; 110; 116; 95; 97; 103; 101; 95; 115; 101; 99; 111; 110; 100; 115] (* wal.go:774 last_segment_age_seconds *);
+   Lit true [115; 101; 103; 109; 101; 110; 116; 95; 114; 111; 116; 97; 116; 105; 111; 110; 115] (* wal.go:782 segment_rotations *);
+   Lit true [104; 101; 97; 100; 95; 116; 114; 117; 110; 99; 97; 116; 105; 111; 110; 115] (* wal.go:939 head_truncations *);
+   Lit true [116; 97; 105; 108; 95; 116; 114; 117; 110; 99; 97; 116; 105; 111; 110; 115] (* wal.go:1011 tail_truncations *)].
 Definition vfy_sites : list site :=
   [Lit true [99; 104; 101; 99; 107; 112; 111; 105; 110; 116; 115; 95; 119; 114; 105; 116; 116; 101; 110] (* store.go:205 checkpoints_written *);
    Lit true [100; 114; 111; 112; 112; 101; 100; 95; 114; 101; 112; 111; 114; 116; 115] (* store.go:222 dropped_reports *);
